@@ -424,4 +424,210 @@ example : netlocOf (fpOfParsed witnessEnv false true (hostParsed "xx.a.com")) = 
     isLangLabel isCountry "gb".toList = true := by
   decide +kernel
 
+/-! ## `gl` / `hl` query items -/
+
+/-- **inserting a `gl` / `hl` item at any position of the query changes nothing** — not even
+`normalize_url`'s tuple (with the options `fingerprint_url` passes), on every host (a per-domain
+filter — facebook.com, youtube.com — does not pre-empt the language filter, repaired in bae86f1),
+whatever the item's value and the case / escaping of its key (`itemKey`: unescaped and
+lower-cased as the filter sees it).  `xs` / `ys` are the raw items before / after the insertion
+point, read off the query as `normalize_url` splits it (after its `&amp;` repair, `fixedQuery`);
+the base query may be empty. -/
+theorem fp_gl_hl (puny : Str → Str) (hp : Bool) (p : Parsed) (q' : Str) (xs ys : List Str) (it : Str)
+    (h1 : fixedQuery fpOpts p = join ['&'] (xs ++ it :: ys))
+    (h2 : fixedQuery fpOpts { p with query := q' } = join ['&'] (xs ++ ys))
+    (hamp : ∀ x ∈ xs ++ it :: ys, '&' ∉ x)
+    (hkey : itemKey it = "gl".toList ∨ itemKey it = "hl".toList) :
+    normParts puny fpOpts hp p = normParts puny fpOpts hp { p with query := q' } := by
+  have hq := queryOut_insert_lang (filterHost puny p.hostname) xs ys it hamp hkey
+  unfold queryOut filterHost at hq
+  unfold normParts normComps
+  simp only [h1, h2]
+  rw [normPath_query_irrelevant p.path _ (join ['&'] (xs ++ it :: ys)) (join ['&'] (xs ++ ys))]
+  simp only [fpOpts, Bool.false_eq_true, if_false] at hq ⊢
+  rw [hq]
+
+/-- … hence the same fingerprint, for every environment and both values of `strip_suffix` -/
+theorem fp_gl_hl_fingerprint (E : Env) (s hp : Bool) (p : Parsed) (q' : Str) (xs ys : List Str) (it : Str)
+    (h1 : fixedQuery fpOpts p = join ['&'] (xs ++ it :: ys))
+    (h2 : fixedQuery fpOpts { p with query := q' } = join ['&'] (xs ++ ys))
+    (hamp : ∀ x ∈ xs ++ it :: ys, '&' ∉ x)
+    (hkey : itemKey it = "gl".toList ∨ itemKey it = "hl".toList) :
+    fpOfParsed E s hp p = fpOfParsed E s hp { p with query := q' } :=
+  fp_of_normParts_eq E s hp hp _ _ (fp_gl_hl E.puny hp p q' xs ys it h1 h2 hamp hkey)
+
+def queryParsed (h q : String) : Parsed := { hostParsed h with path := "/watch".toList, query := q.toList }
+
+/-- non-vacuity: `hl=fr` / `GL=US` / `%68l` in front, in the middle, at the end, alone; on a
+youtube.com host (per-domain filter present) -/
+example :
+    fixedQuery fpOpts (queryParsed "youtube.com" "v=abc&hl=fr&t=1") = join ['&'] (["v=abc".toList] ++ "hl=fr".toList :: ["t=1".toList]) ∧
+    fixedQuery fpOpts (queryParsed "youtube.com" "v=abc&t=1") = join ['&'] (["v=abc".toList] ++ ["t=1".toList]) ∧
+    (itemKey "hl=fr".toList = "hl".toList) ∧ (itemKey "GL=US".toList = "gl".toList) ∧ (itemKey "%68L".toList = "hl".toList) ∧
+    (normParts id fpOpts true (queryParsed "youtube.com" "v=abc&hl=fr&t=1")).query = "v=abc".toList ∧
+    (normParts id fpOpts true (queryParsed "youtube.com" "GL=US&v=abc")).query = "v=abc".toList ∧
+    (normParts id fpOpts true (queryParsed "youtube.com" "v=abc&%68L")).query = "v=abc".toList ∧
+    (normParts id fpOpts true (queryParsed "a.com" "hl=fr")).query = [] ∧
+    (normParts id fpOpts true (queryParsed "a.com" "hlx=fr")).query = "hlx=fr".toList := by
+  decide +kernel
+
+/-! ## the public suffix (`strip_suffix=True`) -/
+
+/-- the full statement: two hosts whose labels are `D ++ S₁` and `D ++ S₂`, `Sᵢ` being the public
+suffix of each under the rule list, get the same fingerprint -/
+def FullSuffixSwap (E : Env) (lines : List Str) : Prop :=
+  ∀ (hp : Bool) (p : Parsed) (h₂ : Option Str) (x₁ x₂ w₁ w₂ : Str) (D S₁ S₂ : List Str),
+    accHost (normHostOf E.puny p) = some x₁ → accHost (normHostOf E.puny { p with hostname := h₂ }) = some x₂ →
+    E.walkHost x₁ = .ok (some w₁) → E.walkHost x₂ = .ok (some w₂) →
+    isSpecialHost w₁ = false → isSpecialHost w₂ = false →
+    hostParts w₁ = D ++ S₁ → hostParts w₂ = D ++ S₂ →
+    hostLen lines w₁ = some S₁.length → hostLen lines w₂ = some S₂.length →
+    fpOfParsed E true hp { p with hostname := h₂ } = fpOfParsed E true hp p
+
+/-- **with `strip_suffix=True` the public suffix is ignored**: two parsed URLs that differ in the
+host only, whose hosts — as the second pass reads them, after the language label is gone
+(`gᵢ`) — have the labels `D ++ S₁` and `D ++ S₂` with `Sᵢ` the public suffix of each
+(C08's specification `hostLen` over the rule list `lines`, any list), have the same fingerprint.
+Side conditions (each excluded region really differs, see the witnesses):
+
+* the suffix is judged **after** the language label is stripped (`hg₁`, `hg₂`): when the whole
+  domain name looks like a language label, `fr.co.uk` loses it (`co.uk` remains, two labels) and
+  `fr.com` keeps it — the language clause and the suffix clause of the property contradict each
+  other there (KF-C06-3);
+* `hdf`: the per-domain query filter is chosen alike for both hosts (`youtube.com` has one,
+  `youtube.co.uk` has none: KF-C06-2). -/
+theorem fp_suffix_swap_partial (E : Env) (hacc : AccLaws E.netlocAcc) (lines : List Str)
+    (ht : E.trie = SuffixTrie.build lines) (hp : Bool) (p : Parsed) (h₂ : Option Str)
+    (hs₁ : HostSafe (normHostOf E.puny p)) (hs₂ : HostSafe (normHostOf E.puny { p with hostname := h₂ }))
+    (hport : PortOk p.port)
+    (hdf : domainFilter (filterHost E.puny p.hostname) = domainFilter (filterHost E.puny h₂))
+    (x₁ x₂ g₁ g₂ w₁ w₂ : Str) (D S₁ S₂ : List Str)
+    (hx₁ : accHost (normHostOf E.puny p) = some x₁)
+    (hx₂ : accHost (normHostOf E.puny { p with hostname := h₂ }) = some x₂)
+    (hg₁ : stripLangSubdomainsFromHostname E.isCC x₁ = g₁)
+    (hg₂ : stripLangSubdomainsFromHostname E.isCC x₂ = g₂)
+    (hw₁ : E.walkHost g₁ = .ok (some w₁)) (hw₂ : E.walkHost g₂ = .ok (some w₂))
+    (hsp₁ : isSpecialHost w₁ = false) (hsp₂ : isSpecialHost w₂ = false)
+    (hparts₁ : hostParts w₁ = D ++ S₁) (hparts₂ : hostParts w₂ = D ++ S₂)
+    (hlen₁ : hostLen lines w₁ = some S₁.length) (hlen₂ : hostLen lines w₂ = some S₂.length) :
+    fpOfParsed E true hp { p with hostname := h₂ } = fpOfParsed E true hp p := by
+  rw [fpParts_normParts E hacc true hp _ hs₂ hport, fpParts_normParts E hacc true hp p hs₁ hport]
+  obtain ⟨e1, e2, e3, _⟩ := normParts_hostname E.puny fpOpts hp p h₂ hdf
+  rw [e1, e2, e3, hx₁, hx₂]
+  have f1 : fingerprintHost E true x₁ = .ok (join dot D) := by
+    simp only [fingerprintHost, if_true, hg₁]
+    exact stripSuffix_of_parts E lines ht g₁ w₁ D S₁ hw₁ hsp₁ hparts₁ hlen₁
+  have f2 : fingerprintHost E true x₂ = .ok (join dot D) := by
+    simp only [fingerprintHost, if_true, hg₂]
+    exact stripSuffix_of_parts E lines ht g₂ w₂ D S₂ hw₂ hsp₂ hparts₂ hlen₂
+  simp only [fpHostOut, accHost_nonempty _ _ hx₁, accHost_nonempty _ _ hx₂, Bool.false_eq_true, if_false, f1, f2]
+
+/-- the same under `WalkLaws`, for plain hosts: `safe_urlsplit` hands the lower-cased host to the trie -/
+theorem fp_suffix_swap_plain (E : Env) (hacc : AccLaws E.netlocAcc) (hwalk : WalkLaws E.walkHost)
+    (lines : List Str) (ht : E.trie = SuffixTrie.build lines) (hp : Bool) (p : Parsed) (h₂ : Option Str)
+    (hs₁ : HostSafe (normHostOf E.puny p)) (hs₂ : HostSafe (normHostOf E.puny { p with hostname := h₂ }))
+    (hport : PortOk p.port)
+    (hdf : domainFilter (filterHost E.puny p.hostname) = domainFilter (filterHost E.puny h₂))
+    (x₁ x₂ g₁ g₂ : Str) (D S₁ S₂ : List Str)
+    (hx₁ : accHost (normHostOf E.puny p) = some x₁)
+    (hx₂ : accHost (normHostOf E.puny { p with hostname := h₂ }) = some x₂)
+    (hg₁ : stripLangSubdomainsFromHostname E.isCC x₁ = g₁)
+    (hg₂ : stripLangSubdomainsFromHostname E.isCC x₂ = g₂)
+    (hpl₁ : PlainHost g₁) (hpl₂ : PlainHost g₂)
+    (hsp₁ : isSpecialHost (lower g₁) = false) (hsp₂ : isSpecialHost (lower g₂) = false)
+    (hparts₁ : hostParts (lower g₁) = D ++ S₁) (hparts₂ : hostParts (lower g₂) = D ++ S₂)
+    (hlen₁ : hostLen lines (lower g₁) = some S₁.length) (hlen₂ : hostLen lines (lower g₂) = some S₂.length) :
+    fpOfParsed E true hp { p with hostname := h₂ } = fpOfParsed E true hp p :=
+  fp_suffix_swap_partial E hacc lines ht hp p h₂ hs₁ hs₂ hport hdf x₁ x₂ g₁ g₂ _ _ D S₁ S₂ hx₁ hx₂ hg₁ hg₂
+    (hwalk.plain g₁ hpl₁) (hwalk.plain g₂ hpl₂) hsp₁ hsp₂ hparts₁ hparts₂ hlen₁ hlen₂
+
+/-! ### witnesses and the statement's own example -/
+
+def linesS : List Str := ["com".toList, "uk".toList, "co.uk".toList, "fr".toList, "*.ck".toList, "!www.ck".toList]
+
+def swapEnv : Env := pyEnv id (fun _ => none) id (SuffixTrie.build linesS) isCountry
+
+def strOf (r : Except Err Split) : Option Str := r.toOption.map fpString
+
+/-- KF-C06-3: the domain name `fr` is a language label when two labels follow it, not when one does -/
+example : strOf (fpOfParsed swapEnv true true (hostParsed "fr.com")) = some "fr".toList ∧
+    strOf (fpOfParsed swapEnv true true (hostParsed "fr.co.uk")) = some [] ∧
+    hostLen linesS "fr.com".toList = some 1 ∧ hostLen linesS "fr.co.uk".toList = some 2 ∧
+    hostParts "fr.com".toList = ["fr".toList] ++ ["com".toList] ∧
+    hostParts "fr.co.uk".toList = ["fr".toList] ++ ["co".toList, "uk".toList] := by
+  decide +kernel
+
+/-- KF-C06-2: `t` is a youtube.com tracking item, on youtube.co.uk it is an item like any other -/
+example : strOf (fpOfParsed swapEnv true true (queryParsed "youtube.com" "v=abc&t=1")) = some "youtube/watch?v=abc".toList ∧
+    strOf (fpOfParsed swapEnv true true (queryParsed "youtube.co.uk" "v=abc&t=1")) = some "youtube/watch?t=1&v=abc".toList ∧
+    domainFilter (filterHost id (some "youtube.com".toList)) ≠ domainFilter (filterHost id (some "youtube.co.uk".toList)) := by
+  decide +kernel
+
+/-- so the full statement fails on this environment (first witness) -/
+theorem fullSuffixSwap_fails : ¬ FullSuffixSwap swapEnv linesS := by
+  intro hfull
+  have h := hfull true (hostParsed "fr.com") (some "fr.co.uk".toList) "fr.com".toList "fr.co.uk".toList
+    "fr.com".toList "fr.co.uk".toList ["fr".toList] ["com".toList] ["co".toList, "uk".toList]
+    (by decide +kernel) (by decide +kernel) (by decide +kernel) (by decide +kernel) (by decide +kernel)
+    (by decide +kernel) (by decide +kernel) (by decide +kernel) (by decide +kernel) (by decide +kernel)
+  have e : strOf (fpOfParsed swapEnv true true { hostParsed "fr.com" with hostname := some "fr.co.uk".toList }) =
+      strOf (fpOfParsed swapEnv true true (hostParsed "fr.com")) := by rw [h]
+  revert e
+  decide +kernel
+
+/-- non-vacuity of `fp_suffix_swap_partial`: `www.example.com` / `www.example.co.uk` and the
+exception rule `!www.ck` (`x.www.ck` has the suffix `ck`): the hypotheses hold, one fingerprint -/
+example :
+    accHost (normHostOf id (hostParsed "example.com")) = some "example.com".toList ∧
+    accHost (normHostOf id { hostParsed "example.com" with hostname := some "example.co.uk".toList }) = some "example.co.uk".toList ∧
+    stripLangSubdomainsFromHostname isCountry "example.co.uk".toList = "example.co.uk".toList ∧
+    pyWalkHost "example.co.uk".toList = .ok (some "example.co.uk".toList) ∧
+    isSpecialHost "example.co.uk".toList = false ∧
+    hostParts "example.co.uk".toList = ["example".toList] ++ ["co".toList, "uk".toList] ∧
+    hostLen linesS "example.co.uk".toList = some 2 ∧ hostLen linesS "example.com".toList = some 1 ∧
+    domainFilter (filterHost id (some "example.com".toList)) = domainFilter (filterHost id (some "example.co.uk".toList)) ∧
+    strOf (fpOfParsed swapEnv true true (hostParsed "www.example.com")) = some "example".toList ∧
+    strOf (fpOfParsed swapEnv true true (hostParsed "www.example.co.uk")) = some "example".toList ∧
+    strOf (fpOfParsed swapEnv true true (hostParsed "x.y.ck")) = some "x".toList ∧
+    strOf (fpOfParsed swapEnv true true (hostParsed "x.y.fr")) = some "x.y".toList := by
+  decide +kernel
+
+/-! ### the statement's own triple, through the whole function (string in, string out) -/
+
+def tripleParse (s : Str) : Option Parsed :=
+  if s = "http://facebook.com/page".toList then some { hostParsed "facebook.com" with path := "/page".toList }
+  else if s = "http://fr-fr.facebook.com:8080/page".toList then
+    some { hostParsed "fr-fr.facebook.com" with netloc := "fr-fr.facebook.com:8080".toList, path := "/page".toList, port := some 8080 }
+  else if s = "http://facebook.co.uk/page".toList then some { hostParsed "facebook.co.uk" with path := "/page".toList }
+  else none
+
+def tripleEnv : Env := pyEnv id tripleParse id (SuffixTrie.build linesS) isCountry
+
+/-- "the same page on facebook.com, fr-FR.facebook.com:8080 and FACEBOOK.CO.UK gets one fingerprint" -/
+example :
+    (fingerprintUrl tripleEnv true "facebook.com/page".toList).toOption = some "facebook/page".toList ∧
+    (fingerprintUrl tripleEnv true "fr-FR.facebook.com:8080/page".toList).toOption = some "facebook/page".toList ∧
+    (fingerprintUrl tripleEnv true "FACEBOOK.CO.UK/Page".toList).toOption = some "facebook/page".toList ∧
+    (fingerprintUrl tripleEnv false "fr-FR.facebook.com:8080/page".toList).toOption = some "facebook.com/page".toList ∧
+    (fingerprintUrl tripleEnv false "FACEBOOK.CO.UK/Page".toList).toOption = some "facebook.co.uk/page".toList := by
+  decide +kernel
+
+/-- port: the hypotheses of `fp_port_irrelevant` hold on the second spelling -/
+example : HostSafe (normHostOf id (hostParsed "fr-fr.facebook.com")) ∧ PortOk (some 8080) ∧
+    accHost (normHostOf id (hostParsed "fr-fr.facebook.com")) = some "fr-fr.facebook.com".toList := by
+  refine ⟨?_, ?_, by decide +kernel⟩
+  · intro x hx
+    have : x = "fr-fr.facebook.com".toList := by
+      have e : normHostOf id (hostParsed "fr-fr.facebook.com") = some "fr-fr.facebook.com".toList := by decide +kernel
+      rw [e] at hx; injection hx with hx; exact hx.symm
+    subst this; decide
+  · intro n hn; injection hn with hn; omega
+
+/-- case: an escaped capital, an upper-case escape, a capital in every component -/
+example : lower "HTTP://User@A.com/%C3%89?K=V#F".toList = lower "http://user@a.COM/%c3%89?k=v#f".toList := by
+  decide
+
+/-- unparseable input (reading: outside the quantifier): the model says which exception -/
+example : (fingerprintUrl tripleEnv false "http://[::1".toList).toOption = none := by decide +kernel
+
 end Ural.Props.C06
